@@ -20,6 +20,8 @@
 EXTENDS Naturals, Integers, Sequences, FiniteSets
 
 CONSTANTS MainProg, IsrProg, AQDepth, EQDepth, SPeriod, Discipline, MaxNest,
+          LoopForever, \* TRUE: after the last entry of MainProg the main loop keeps calling fibre_scheduler_next with the same time (liveness configurations)
+          FastPathChecksAtomicQ,  \* TRUE (the code): the single-yielder fast path is not taken while an atomic request is pending; FALSE only in the vacuity configuration
           Sleeper     \* TRUE: the sleeping fibre S is started; FALSE: Y is the only runnable fibre (single-yielder fast path)
 
 H == 1
@@ -60,15 +62,17 @@ SBody(g, mm) == IF mm.wake <= mm.now THEN SBody(g, [mm EXCEPT !.wake = @ + g.per
 RECURSIVE PassStart(_, _), EndPass(_, _, _), Dispatch(_, _)
 (* from the call of fibre_scheduler_next(MainProg[k]) to its first atomic operation *)
 PassStart(g, mm) ==
-  IF mm.k > Len(g.main) THEN [mm EXCEPT !.pc = "Done"]
-  ELSE LET m1 == [mm EXCEPT !.now = g.main[mm.k]] IN
+  IF mm.k > Len(g.main) /\ ~LoopForever THEN [mm EXCEPT !.pc = "Done"]
+  ELSE LET kk == IF mm.k > Len(g.main) THEN Len(g.main) ELSE mm.k
+           m1 == [mm EXCEPT !.now = g.main[kk], !.k = kk] IN
        IF m1.kstate = "yielded" /\ m1.runq = <<>> /\ m1.timerq = <<>>
          THEN [m1 EXCEPT !.pc = "SlowTest"]                 \* last operand of the || chain: !messageq_empty(&kernel.atomic_runq)
          ELSE [m1 EXCEPT !.pc = "Drain", !.site = "pass"]
 (* the pass returns `ret`; the main loop immediately makes the next call *)
-EndPass(g, mm, ret) == PassStart(g, [mm EXCEPT !.k = @ + 1, !.last = <<ret, mm.current>>, !.passes = @ + 1])
+EndPass(g, mm, ret) == PassStart(g, [mm EXCEPT !.k = @ + 1, !.last = <<ret, mm.current>>,
+                                              !.passes = IF LoopForever THEN (@ + 1) % 2 ELSE @ + 1])
 Dispatch(g, m0) ==
-  LET mm == IF m0.current = 0 THEN m0 ELSE [m0 EXCEPT !.ndisp = @ + 1] IN     \* ndisp counts dispatches (ghost)
+  LET mm == IF m0.current = 0 THEN m0 ELSE [m0 EXCEPT !.ndisp = (@ + 1) % 2] IN   \* ndisp toggles at every dispatch (ghost; at most one dispatch per step)
   CASE mm.current = 0 -> [mm EXCEPT !.pc = "Wake"]
     [] mm.current = Y -> EndPass(g, [mm EXCEPT !.kstate = "yielded"], mm.now)      \* yielded: return kernel.now at once
     [] mm.current = S -> SBody(g, mm)
@@ -116,16 +120,16 @@ Sched(c, newpc) ==
        stack' = IF newpc = "Done" THEN SubSeq(st1, 1, Len(st1) - 1) ELSE st1
 Obs(c, op, var, calls) == obs' = [c |-> c, op |-> op, var |-> var, calls |-> calls]
 Call(n, r) == [n |-> n, r |-> r]
-PassCalls(m1) == IF m1.passes > m.passes THEN <<Call("ret", m1.last[1]), Call("self", m1.last[2])>> ELSE <<>>
+PassCalls(m1) == IF m1.passes # m.passes THEN <<Call("ret", m1.last[1]), Call("self", m1.last[2])>> ELSE <<>>
 
 (* ------------------------------- main context steps ------------------------------- *)
 (* a dispatch of f answers every request for f accepted before it *)
-Acc(m1) == acc' = IF m1.ndisp > m.ndisp THEN acc \ {IF m1.passes > m.passes THEN m1.last[2] ELSE m1.current} ELSE acc
+Acc(m1) == acc' = IF m1.ndisp # m.ndisp THEN acc \ {IF m1.passes # m.passes THEN m1.last[2] ELSE m1.current} ELSE acc
 MainFrame == UNCHANGED <<cfg, taint, isr, claimed, sentOk>> /\ Sched(0, "x")
 
 SlowTest ==
   /\ m.pc = "SlowTest" /\ Runnable(0)
-  /\ LET m1 == IF aq.rp \in aq.fl THEN [m EXCEPT !.pc = "Drain", !.site = "pass"]
+  /\ LET m1 == IF FastPathChecksAtomicQ /\ aq.rp \in aq.fl THEN [m EXCEPT !.pc = "Drain", !.site = "pass"]
                ELSE Dispatch(cfg, m)                                       \* fast path: no scheduler update at all
      IN m' = m1 /\ Obs(0, "load", "aq_flags", PassCalls(m1)) /\ Acc(m1)
   /\ UNCHANGED <<aq, eq, seen>> /\ MainFrame
@@ -297,6 +301,12 @@ IsrStep(c) == RDec(c) \/ RUndo(c) \/ RTaint(c) \/ RLoad(c) \/ RCas(c) \/ RWrite(
 Step(c) == IF c = 0 THEN MainStep ELSE IsrStep(c)
 Next == MainStep \/ \E c \in 1..Len(IsrProg) : IsrStep(c)
 Spec == Init /\ [][Next]_vars
+(* liveness: the main loop keeps running, every started interrupt handler finishes *)
+FairSpec == Init /\ [][Next]_vars /\ WF_vars(MainStep) /\ \A c \in 1..Len(IsrProg) : WF_vars(IsrStep(c))
+(* a wake-up whose fibre_run_atomic returned true is followed by a dispatch of its fibre without further stimulus *)
+AcceptedLeadsToDispatch == \A f \in {H, Y, S} : (f \in acc) ~> (f \notin acc)
+(* an event whose fibre_eventq_send returned true is eventually seen by the handler *)
+SentLeadsToSeen == \A c \in 1..Len(IsrProg) : (IsrProg[c].k = "event" /\ IsrProg[c].a \in sentOk) ~> (\E i \in 1..Len(seen) : seen[i] = IsrProg[c].a)
 
 -----------------------------------------------------------------------------
 (* C06 *)
@@ -314,7 +324,7 @@ EventsExactlyOnceInOrder == IsPrefix(seen, claimed)
 Quiet == m.pc = "Done" /\ \A c \in Isrs : isr[c].pc = "Done"
 (* C03 (irq discipline): the returned wake-up time sees every request completed before the final check *)
 RetSeesCompleted ==
-  [][(m.pc = "Wake" /\ m'.passes > m.passes /\ Discipline = "irq") =>
+  [][(m.pc = "Wake" /\ m'.passes # m.passes /\ Discipline = "irq") =>
         (m'.last[1] # m.now => (acc \cap PendingSlots = {} /\ m.runq = <<>>))]_vars
 Safety == AcceptedIsQueuedOrPending /\ QueuesIntact /\ EventsExactlyOnceInOrder
 =============================================================================
